@@ -1,4 +1,5 @@
 import Evl.Lemmas.Gated
+import Evl.Generated.LockSites
 /-!
 # C17 — gated events do not linger: expiry, FlushAll and Close empty the gate
 
@@ -137,5 +138,13 @@ example : Succeeded (step ⟨true, 10⟩ demoGs (.ev 14 3 false 20 {})).2 := Or.
 example : (step ⟨true, 10⟩ demoGs (.flushAll {})).2.ret = .ok ∧ (step ⟨true, 10⟩ demoGs (.flushAll {})).1 = [] := by decide
 example : (step ⟨true, 10⟩ demoGs (.flushAll { sf := 2 })).2.ret = .errSend ∧
     (step ⟨true, 10⟩ demoGs (.flushAll { sf := 2 })).1 = [⟨3, [13], 40⟩] := by decide
+
+/-- **The model's steps are the code's critical sections** (regenerated from filters/gated/gated.go on
+every run): `Close` and `FlushAll` each take the filter's lock once and keep it until they return
+— emptying the gate is one atomic step, nobody sees or touches a group between its composition, its
+emission through the Broker and its removal; `Process` consists of exactly three sections
+(initialisation, the expiry sweep, the event's own group), each of them one step of M6.  A lock given
+up in the middle of a sweep (e.g. around `Broker.Send`) shows here as a fourth section. -/
+theorem sections_on_source : Evl.Generated.gatedSections = [1, 1, 3] := by decide
 
 end Evl.C17
